@@ -1,0 +1,13 @@
+//go:build verif
+
+package queue
+
+import "github.com/lindb/lindb/pkg/queue/page"
+
+// VerifSetPageFactoryFunc replaces the page factory constructor (verification harness only),
+// returns a function restoring the previous one.
+func VerifSetPageFactoryFunc(fn func(path string, pageSize int) (page.Factory, error)) (restore func()) {
+	old := newPageFactoryFunc
+	newPageFactoryFunc = fn
+	return func() { newPageFactoryFunc = old }
+}
